@@ -133,9 +133,13 @@ type registrar struct {
 
 func regServer(s *mcp.Server) registrar {
 	return registrar{
-		tool: func(t *mcp.Tool, h func(ctx context.Context, req *mcp.CallToolRequest) (*mcp.CallToolResult, error)) { s.RegisterTool(t, h) },
+		tool: func(t *mcp.Tool, h func(ctx context.Context, req *mcp.CallToolRequest) (*mcp.CallToolResult, error)) {
+			s.RegisterTool(t, h)
+		},
 		unregTools: s.UnregisterTools,
-		prompt: func(p *mcp.Prompt, h func(ctx context.Context, req *mcp.GetPromptRequest) (*mcp.GetPromptResult, error)) { s.RegisterPrompt(p, h) },
+		prompt: func(p *mcp.Prompt, h func(ctx context.Context, req *mcp.GetPromptRequest) (*mcp.GetPromptResult, error)) {
+			s.RegisterPrompt(p, h)
+		},
 		resource: func(r *mcp.Resource, h func(ctx context.Context, req *mcp.ReadResourceRequest) (mcp.ResourceContents, error)) {
 			s.RegisterResource(r, h)
 		},
@@ -144,9 +148,13 @@ func regServer(s *mcp.Server) registrar {
 
 func regSSE(s *mcp.SSEServer) registrar {
 	return registrar{
-		tool: func(t *mcp.Tool, h func(ctx context.Context, req *mcp.CallToolRequest) (*mcp.CallToolResult, error)) { s.RegisterTool(t, h) },
+		tool: func(t *mcp.Tool, h func(ctx context.Context, req *mcp.CallToolRequest) (*mcp.CallToolResult, error)) {
+			s.RegisterTool(t, h)
+		},
 		unregTools: s.UnregisterTools,
-		prompt: func(p *mcp.Prompt, h func(ctx context.Context, req *mcp.GetPromptRequest) (*mcp.GetPromptResult, error)) { s.RegisterPrompt(p, h) },
+		prompt: func(p *mcp.Prompt, h func(ctx context.Context, req *mcp.GetPromptRequest) (*mcp.GetPromptResult, error)) {
+			s.RegisterPrompt(p, h)
+		},
 		resource: func(r *mcp.Resource, h func(ctx context.Context, req *mcp.ReadResourceRequest) (mcp.ResourceContents, error)) {
 			s.RegisterResource(r, h)
 		},
@@ -155,9 +163,13 @@ func regSSE(s *mcp.SSEServer) registrar {
 
 func regStdio(s *mcp.StdioServer) registrar {
 	return registrar{
-		tool: func(t *mcp.Tool, h func(ctx context.Context, req *mcp.CallToolRequest) (*mcp.CallToolResult, error)) { s.RegisterTool(t, h) },
+		tool: func(t *mcp.Tool, h func(ctx context.Context, req *mcp.CallToolRequest) (*mcp.CallToolResult, error)) {
+			s.RegisterTool(t, h)
+		},
 		unregTools: s.UnregisterTools,
-		prompt: func(p *mcp.Prompt, h func(ctx context.Context, req *mcp.GetPromptRequest) (*mcp.GetPromptResult, error)) { s.RegisterPrompt(p, h) },
+		prompt: func(p *mcp.Prompt, h func(ctx context.Context, req *mcp.GetPromptRequest) (*mcp.GetPromptResult, error)) {
+			s.RegisterPrompt(p, h)
+		},
 		resource: func(r *mcp.Resource, h func(ctx context.Context, req *mcp.ReadResourceRequest) (mcp.ResourceContents, error)) {
 			s.RegisterResource(r, h)
 		},
@@ -530,34 +542,68 @@ func scCliStreamable(ch *child) {
 }
 
 // gate is a custom HTTPReqHandler (public extension point): it performs the request as the default handler does and
-// lets the first n answers return to the library together, so that the goroutines process them at the same time.
+// lets the first n answers return to the library together — the goroutine marked 0 at once, the others a moment
+// later.  After the barrier it touches no shared state (an atomic or a mutex of ours would order the goroutines and
+// hide what we are looking for); delays are plain sleeps.
 type gate struct {
 	n       int32
 	arrived atomic.Int32
 	open    chan struct{}
 }
 
+type gkey struct{}
+
+// gstate is goroutine-local (one per calling goroutine, carried by its context).
+type gstate struct {
+	idx int
+}
+
 func (g *gate) Handle(ctx context.Context, client *http.Client, req *http.Request) (*http.Response, error) {
 	// a connection of its own per request: the shared connection pool's mutexes would order the goroutines by accident
 	resp, err := (&http.Client{Transport: &http.Transport{DisableKeepAlives: true}}).Do(req)
-	if k := g.arrived.Add(1); k <= g.n {
-		if k == g.n {
-			close(g.open)
-		}
-		select {
-		case <-g.open:
-		case <-time.After(2 * time.Second):
+	select {
+	case <-g.open:
+		return resp, err
+	default:
+	}
+	if g.arrived.Add(1) == g.n {
+		close(g.open)
+	}
+	select {
+	case <-g.open:
+	case <-time.After(2 * time.Second):
+	}
+	if st, ok := ctx.Value(gkey{}).(*gstate); ok && resp != nil {
+		if st.idx != 0 {
+			time.Sleep(5 * time.Millisecond)
+		} else {
+			// goroutine 0 looks at the answer's headers first, then finds the body slow to arrive: whatever it
+			// stored on seeing the headers is not followed by any synchronising operation of its own for a while
+			resp.Body = &slowBody{rc: resp.Body}
 		}
 	}
 	return resp, err
 }
 
+type slowBody struct {
+	rc   io.ReadCloser
+	slow bool
+}
+
+func (b *slowBody) Read(p []byte) (int, error) {
+	if !b.slow {
+		b.slow = true
+		time.Sleep(60 * time.Millisecond)
+	}
+	return b.rc.Read(p)
+}
+func (b *slowBody) Close() error { return b.rc.Close() }
+
 // scCliFirst: the first use of a client made from several goroutines at once (stateful and stateless server).
 func scCliFirst(ch *child) {
-	ctx := context.Background()
 	for _, stateless := range []bool{true, false} {
 		f := newStreamSrv(stateless)
-		for round := 0; round < 10*ch.scale; round++ {
+		for round := 0; round < 8*ch.scale; round++ {
 			c := newStreamClient(f.url)
 			if round%2 == 0 {
 				var err error
@@ -569,9 +615,11 @@ func scCliFirst(ch *child) {
 			}
 			var wg sync.WaitGroup
 			for g := 0; g < 4; g++ {
+				g := g
 				wg.Add(1)
 				go func() {
 					defer wg.Done()
+					ctx := context.WithValue(context.Background(), gkey{}, &gstate{idx: g})
 					_, err := c.Initialize(ctx, &mcp.InitializeRequest{})
 					ch.did(err)
 					ch.did(callWork(ctx, c, "first"))
@@ -684,7 +732,10 @@ func scSSEFirst(ch *child) {
 	defer func() { ts.CloseClientConnections(); ts.Close() }()
 	ctx := context.Background()
 	for round := 0; round < 2*ch.scale; round++ {
-		c := newSSEClient(ts.URL + "/sse")
+		c, err := mcp.NewSSEClient(ts.URL+"/sse", impl, mcp.WithClientLogger(hk.QuietLogger{}), mcp.WithHTTPReqHandler(&gate{n: 2, open: make(chan struct{})}))
+		if err != nil {
+			panic(err)
+		}
 		var wg sync.WaitGroup
 		for g := 0; g < 2; g++ {
 			wg.Add(1)
